@@ -320,8 +320,8 @@ func main() {
 				continue
 			}
 		}
-		fmt.Fprintf(os.Stderr, "vcheck: shard %d of %s exited with %d without reporting a case; tail of its output:\n%s\n",
-			r.idx, id, r.exit, tail(r.output, 3000))
+		fmt.Fprintf(os.Stderr, "vcheck: shard %d of %s exited with %d without reporting a case; its output begins:\n%s\n",
+			r.idx, id, r.exit, head(r.output, 1500))
 		infra = true
 	}
 
@@ -422,6 +422,13 @@ func lastExecs(out []byte) int64 {
 	}
 	v, _ := strconv.ParseInt(string(ms[len(ms)-1][1]), 10, 64)
 	return v
+}
+
+func head(b []byte, n int) string {
+	if len(b) > n {
+		return string(b[:n]) + "\n..."
+	}
+	return string(b)
 }
 
 func tail(b []byte, n int) string {
